@@ -44,6 +44,20 @@ def X():
     return {"k": "X"}
 
 
+def K():
+    return {"k": "K"}
+
+
+def encz(z):
+    """client ids are integers (0 / negative = not a real client); they travel to the model as naturals"""
+    return 2 * z if z >= 0 else -2 * z - 1
+
+
+BIG = 1 << 62
+INT64_MAX = (1 << 63) - 1
+UNBOUND = [0, -1, -BIG, -INT64_MAX]          # ids that are not real clients
+
+
 def thr(client, ops, faults=()):
     return {"client": client, "ops": list(ops), "faults": list(faults)}
 
@@ -101,7 +115,7 @@ def random_case(rng):
     subs = rng.choice([["a", "b"], ["a"], ["a", "b", "c"], ["a", "A"], ["a", "[:"], ["a", "a:b"], ["x-1", "x-2"]])
     bases = rng.choice([BASES, BASES, ["tunnox.net", "t.io"], ["t.io"]])
     n = rng.choice([2, 3, 3, 4])
-    clients = [rng.choice([1, 1, 2, 3]) for _ in range(n)]
+    clients = [rng.choice([1, 1, 2, 3, 3, 0, -1, BIG, BIG + 1]) for _ in range(n)]
     threads = []
     for i in range(n):
         ops = []
@@ -112,7 +126,9 @@ def random_case(rng):
                 ops.append(C(sub, rng.choice([11, 12, 13, 0]) if rng.random() < 0.08 else rng.randrange(1, 60), base))
             elif k < 0.55:
                 ops.append(D(rng.choice([0, 0, 1])) if rng.random() < 0.5 else D(-1, rng.choice([1, 1, 2, 3, 4])))
-            elif k < 0.7:
+            elif k < 0.6:
+                ops.append(K())
+            elif k < 0.72:
                 ops.append(U(rng.choice([0, 0, 1, -1]), rng.choice(STS), rng.choice([0, 0, T0 - 5000, T0 + 5000]),
                              rng.choice([5, 6, 7, 0]) if rng.random() < 0.1 else rng.randrange(1, 60)))
             else:
@@ -127,12 +143,60 @@ def random_case(rng):
     reg, cloud = [], []
     if rng.random() < 0.35:
         for j, sub in enumerate(subs[:2]):
-            e = {"sub": sub, "base": bases[0], "id": 70 + j, "client": rng.choice([1, 2, 7]), "tgt": 700 + j,
+            e = {"sub": sub, "base": bases[0], "id": 70 + j, "client": rng.choice([1, 2, 7, BIG]), "tgt": 700 + j,
                  "active": rng.random() < 0.8, "revoked": rng.random() < 0.15, "exp": rng.choice([0, 0, T0 - 5000, T0 + 5000])}
             (reg if rng.random() < 0.5 else cloud).append(e)
     sched = bursts(rng, n) if rng.random() < 0.7 else [rng.randrange(n) for _ in range(rng.choice([0, 5, 20, 60]))]
     store = "hybrid" if rng.random() < 0.12 else "memory"
     return case(threads, sched, store=store, bases=bases, reg=reg, cloud=cloud, probe=rng.random() < 0.5)
+
+
+def impersonation_cases(rng, cfix, n_random):
+    """every repository operation called with the boundary identities (0 = connection not bound to a client, negative,
+    huge, owner+-1) against mappings owned by real clients: only the owner may delete; nothing is stored for ids <= 0"""
+    out = []
+    k = 5 if cfix else 4
+    for owner in (1, 7, BIG, INT64_MAX):
+        attackers = UNBOUND + [owner - 1 if owner > 1 else owner + 2, owner + 1 if owner < INT64_MAX else owner - 2]
+        for att in attackers:
+            th = [thr(owner, [C("a", 11)]),
+                  thr(att, [D(-1, 1), C("a", 66), D(-1, 1), U(-1, "inactive", 0, 67), C("z", 68), D(0)]),
+                  thr(9, [L("a.tunnox.net:80")])]
+            out.append(case(th, [0] * k + [1] * 30 + [2] * 2))
+            out.append(case(th, [0] * (k - 2) + [1] * 3 + [0] * 2 + [1] * 30 + [2] * 2))     # impersonation while the create is in flight
+    th = [thr(3, [C("a", 11), C("b", 12)]), thr(0, [D(-1, 1), D(-1, 2), K(), C("a", 66)]), thr(-1, [D(-1, 2), C("b", 67), K(), D(-1, 1)]),
+          thr(BIG, [D(-1, 1), C("a", 68)]), thr(9, [L("a.tunnox.net"), L("b.tunnox.net:443")])]
+    for _ in range(n_random):
+        out.append(case(th, [0] * rng.choice([0, 3, k, 2 * k]) + bursts(rng, 5)))
+    return out
+
+
+def cleanup_cases(rng, cfix, n_random):
+    """CleanupExpiredMappings inside histories: an internal deleter that must remove expired mappings only, on behalf of their
+    owners; racing the owner's own delete, a re-claim, an update that un-expires, and callers of any identity"""
+    out = []
+    k = 5 if cfix else 4
+    th = [thr(1, [C("a", 11), U(0, "active", T0 - 5000, 12)]),                 # expired by its own update
+          thr(2, [C("b", 22), U(0, "active", T0 + 5000, 23)]),                 # not expired
+          thr(3, [C("c", 33)]),                                                # never expires
+          thr(0, [K(), K()]),                                                  # the cleanup job (any caller identity)
+          thr(9, [L("a.tunnox.net"), L("b.tunnox.net"), L("c.tunnox.net:80")])]
+    out.append(case(th, [0] * (k + 2) + [1] * (k + 2) + [2] * k + [3] * 40 + [4] * 6))
+    th2 = [thr(1, [C("a", 11), U(0, "active", T0 - 5000, 12), D(0)]),          # owner deletes while the cleanup deletes
+           thr(5, [K()]), thr(-1, [K(), D(-1, 1)]),
+           thr(2, [C("a", 22)]),                                               # re-claim of the cleaned name
+           thr(1, [U(0, "active", T0 + 5000, 13)]),
+           thr(9, [L("a.tunnox.net:80")])]
+    out.append(case(th2, [0] * (k + 2) + [1] * 3 + [0] * 7 + [3] * k + [1] * 12 + [2] * 12 + [5] * 2))
+    for _ in range(n_random):
+        out.append(case(th, [0] * (k + 2) + [1] * rng.choice([0, k + 2]) + bursts(rng, 5)))
+        out.append(case(th2, [0] * rng.choice([k, k + 2]) + bursts(rng, 6)))
+    # storage failures inside the cleanup
+    for _ in range(n_random // 2):
+        t3 = [dict(t) for t in th]
+        t3[3] = thr(0, [K(), K()], [rng.random() < 0.3 for _ in range(14)])
+        out.append(case(t3, [0] * (k + 2) + [1] * (k + 2) + [2] * k + bursts(rng, 5)))
+    return out
 
 
 def host_cases(rng):
@@ -201,6 +265,8 @@ def op_term(o):
         return [2, o["mine"] if o["mine"] >= 0 else 99, STS.index(o["st"]), o["exp"], o["tgt"]]
     if k == "L":
         return [3, bytes.fromhex(o["host"]), T0]
+    if k == "K":
+        return [5, T0]
     return [4]
 
 
@@ -210,7 +276,7 @@ def ref_extract(h):
 
 
 def legacy_term(e):
-    return [(e["sub"] + "." + e["base"]).encode("latin1"), e["id"], e["client"], e["tgt"], bool(e["active"]), bool(e["revoked"]), e["exp"]]
+    return [(e["sub"] + "." + e["base"]).encode("latin1"), e["id"], encz(e["client"]), e["tgt"], bool(e["active"]), bool(e["revoked"]), e["exp"]]
 
 
 def case_value(c, o, guarded, cfix):
@@ -223,14 +289,19 @@ def case_value(c, o, guarded, cfix):
                 names.add(ref_extract(bytes.fromhex(op["host"]).decode("latin1")))
     nl = sorted(names)
     assert len(nl) == len(o["finals"]), (nl, o["finals"])
-    ths = [[t["client"], [op_term(op) for op in t["ops"]], [bool(f) for f in t["faults"]], [list(r) for r in to]]
+    def res_term(r):
+        r = list(r)
+        if r[0] == 3:
+            r[3] = encz(r[3])
+        return r
+    ths = [[encz(t["client"]), [op_term(op) for op in t["ops"]], [bool(f) for f in t["faults"]], [res_term(r) for r in to]]
            for t, to in zip(c["threads"], o["results"])]
     obs = [[[bytes.fromhex(n), int(i)] for n, i in o["idx"]],
-           [[r["id"], bytes.fromhex(r["name"]), r["client"], r["tgt"], r["st"], r["exp"]] for r in o["recs"]],
-           [[row[0], row[1:]] for row in o["lists"]],
+           [[r["id"], bytes.fromhex(r["name"]), encz(r["client"]), r["tgt"], r["st"], r["exp"]] for r in o["recs"]],
+           [[encz(row[0]), row[1:]] for row in o["lists"]],
            list(o["guards"]), o["next"],
-           [[n.encode("latin1"), list(f)] for n, f in zip(nl, o["finals"])],
-           bool(o["next_ttl"])]
+           [[n.encode("latin1"), res_term(f)] for n, f in zip(nl, o["finals"])],
+           bool(o["next_ttl"]), list(o["glist"])]
     atomic = not (c["store"] == "hybrid" and o["split_incr"])
     return [[bool(guarded), bool(atomic), T0, bool(cfix)], ths, list(o["sched"]), [legacy_term(e) for e in c["reg"]],
             [legacy_term(e) for e in c["cloud"]], obs]
@@ -287,6 +358,8 @@ def run(ctx, only_cases=None):
             cases.append(json.load(open(f)))
         cases += race_cases(rng, guarded, cfix, 400 if thorough else 40)
         cases += host_cases(rng)
+        cases += impersonation_cases(rng, cfix, 200 if thorough else 25)
+        cases += cleanup_cases(rng, cfix, 300 if thorough else 30)
         cases += dup_id_cases(rng, 60 if thorough else 6)
         cases += reset_cases(rng)
         cases += [{"mode": "nodes"}, {"mode": "backends"}]
@@ -329,12 +402,20 @@ def run(ctx, only_cases=None):
     # ---- coverage ----
     nontriv = set()
     stats = {"creates_ok": 0, "creates_refused_taken": 0, "deletes": 0, "conflicts": 0, "forbidden": 0, "routed_repo": 0, "routed_legacy": 0,
-             "rejected": 0, "faults_injected": 0, "rollbacks": 0, "hybrid_store": 0}
+             "rejected": 0, "faults_injected": 0, "rollbacks": 0, "hybrid_store": 0, "cleanups": 0, "cleaned": 0,
+             "ops_by_unbound_callers": 0, "deletes_refused_for_unbound_callers": 0}
     for c, o in sc:
         st = {"taken": 0, "routed": 0, "del": 0}
         for t, rs in zip(c["threads"], o["results"]):
             stats["faults_injected"] += sum(t["faults"])
             for op, r in zip(t["ops"], rs):
+                if t["client"] <= 0:
+                    stats["ops_by_unbound_callers"] += 1
+                    if op["k"] == "D" and r[0] == 5 and r[1] == 5:
+                        stats["deletes_refused_for_unbound_callers"] += 1
+                if r[0] == 6:
+                    stats["cleanups"] += 1
+                    stats["cleaned"] += r[1]
                 if r[0] == 0:
                     stats["creates_ok"] += 1
                 elif r[0] == 1:
@@ -360,7 +441,8 @@ def run(ctx, only_cases=None):
             nontriv.add(json.dumps([c["threads"], c["sched"], c["store"]], sort_keys=True))
     ctx.coverage.update({
         "evaluations": len(cases), "distinct_nontrivial": len(nontriv),
-        "rule": "schedules (one entry = one storage call of one caller) of 2-5 concurrent callers running create / delete / update / lookup "
+        "rule": "schedules (one entry = one storage call of one caller) of 2-6 concurrent callers running create / delete / update / lookup / "
+                "expiry-cleanup scripts with caller ids from {real clients, 0, -1, huge, owner+-1} "
                 "scripts on overlapping names for 1-3 clients (two callers may be sessions of one client), with injected storage failures, "
                 "replayed deterministically on the real HTTPDomainMappingRepository + DomainProxyModule.lookupMapping through a gated store "
                 "double (memory.Storage, and hybrid.Storage with its Incr gated inside); non-trivial = non-empty prescribed schedule, >= 2 "
